@@ -167,6 +167,14 @@ def rule_operator_tables(ctx, rep, rid: str) -> None:
         rep.bad(rid, "compiler:compound-op_map", f"compound assignment operators {sorted(compound - set(asgmap))} are accepted by the parser but missing from the compiler's map (host KeyError) / unknown {sorted(set(asgmap) - compound)}", f"{comp.rel}:1")
     else:
         rep.ok(rid, "compiler:compound-op_map", {"operators": sorted(asgmap)})
+    # every arithmetic, shift and bitwise binary operator of the language has an `op=` form (ECMAScript
+    # AssignmentOperator): one that the lexer/parser do not know is a syntax error for valid source
+    has_compound_form = {"+", "-", "*", "/", "%", "**", "<<", ">>", ">>>", "&", "|", "^"}
+    missing_forms = sorted((set(binmap) & has_compound_form) - compound)
+    if missing_forms:
+        rep.bad(rid, "parser:compound-forms", f"the binary operators {missing_forms} are implemented but their compound assignments ({', '.join(m + '=' for m in missing_forms)}) are not tokens the parser accepts: `a {missing_forms[0]}= 2` is rejected as a syntax error", f"{par.rel}:{asg_tuples[0][2]}")
+    else:
+        rep.ok(rid, "parser:compound-forms", {"operators": sorted(set(binmap) & has_compound_form)})
     for op, oc in sorted(asgmap.items()):
         if binmap.get(op) != oc:
             rep.bad(rid, f"compiler:compound:{op}=", f"`{op}=` is lowered to {oc} but binary `{op}` to {binmap.get(op)}", f"{comp.rel}:1")
